@@ -408,13 +408,16 @@ class KexGroupExchange(KexDH):
 
             g = int(binascii.hexlify(payload[ptr:ptr + g_len]), 16)
             ptr += g_len
-        except struct.error:
+        except (struct.error, ValueError):
             raise KexDHException("Error while parsing modulus and generator during GEX init: %s" % str(traceback.format_exc())) from None
 
         # Now that we got the generator and modulus, perform the DH exchange
         # like usual.
-        super(KexGroupExchange, self).set_params(g, p)
-        super(KexGroupExchange, self).send_init(s, Protocol.MSG_KEXDH_GEX_INIT)
+        try:
+            super(KexGroupExchange, self).set_params(g, p)
+            super(KexGroupExchange, self).send_init(s, Protocol.MSG_KEXDH_GEX_INIT)
+        except ValueError:  # A modulus too small to pick an exponent for (or zero).
+            raise KexDHException("Invalid modulus received during GEX init: %s" % str(traceback.format_exc())) from None
 
 
 class KexGroupExchange_SHA1(KexGroupExchange):
